@@ -69,6 +69,11 @@ def instances(tier):
             inst = {"now": 0, "workers": ws, "graphs": [{"name": "G", "tasks": names, "edges": [list(e) for e in edges]}], "tasks": tasks}
             for kind, opts in planners(tier, "whole"):
                 out.append({"name": f"{kind}-{opts.get('goal', '')}-{shape}-w{''.join(map(str, ws))}-source-fits-nowhere-d{opts.get('time_discretization', '')}", "kind": kind, "opts": opts, "inst": inst})
+    # the parent's runtime is written in milliseconds (2 ms), everything else in microseconds
+    for kind, opts in (("Z3", {"release_taskgraphs": True, "enforce_deadlines": True}), ("ILP", {"goal": "max_goodput", "release_taskgraphs": True, "enforce_deadlines": True})):
+        tasks = {"A": {"strategies": [[2000, 1]], "deadline": 9000, "runtime_in_ms": True}, "B": {"strategies": [[3, 1]], "deadline": 9000}}
+        inst = {"now": 0, "workers": [2], "graphs": [{"name": "G", "tasks": ["A", "B"], "edges": [["A", "B"]]}], "tasks": tasks}
+        out.append({"name": f"{kind}-chain2-w2-parent-runtime-in-milliseconds-d", "kind": kind, "opts": opts, "inst": inst})
     return out
 
 
